@@ -569,6 +569,14 @@ impl<'a, RK: RadioKind> Exec<'a, RK> {
             let t = format!("  -> {:?} (spi {}, busy waits {}, irq waits {}, other {})", res, log.spi, log.busy, log.irq, log.other);
             w.env.tr(|| t);
         }
+        // A call that fails without any bus, line or delay activity and without an injected fault was refused before the
+        // chip was commanded - whatever error variant says so (the adapter may refuse with an error of its own).
+        let res = if matches!(res, Res::Err(_)) && !log.touched() && !log.fault_fired {
+            self.stats.bump("probe.refused-with-another-error");
+            Res::Refused
+        } else {
+            res
+        };
         self.stats.steps += log.spi as u64;
         self.shape.u8(step.op.name().len() as u8);
         self.shape.str(step.op.name());
